@@ -171,7 +171,8 @@ CHECKS["C20"] = dict(engine="GraphQL", design_ref="§5 C20",
          "shape of the bounded family (0-2 arguments over 12 base types x 5 wrappers, 6 return kinds, Query/Mutation name clash, custom root names, Subscription; "
          "quick 80, thorough 460) and all 57 name-filter pairs per shape, and checks the design invariants on each. Every shape is loaded through the SDL and "
          "introspection loaders; every projected AST of the sampled Hypothesis draws and every offered-set / count observation is judged by TLC against the spec "
-         "operators. Exhaustive over shapes and filters within the bound, sampled over draws.",
+         "operators; plus TLC-enumerated 3-step configure / register-scalar / draw histories (GraphQLHistory.tla) replayed on ONE schema object, each "
+         "document judged against the configuration in force at its own step. Exhaustive over shapes, filters and histories within the bound, sampled over draws.",
     note=COMMON_TRUST + "; the graphql-core parser and the ~60-line AST projection; custom scalars are judged by declared literal kind; non-null values for "
          "unregistered scalars are undetermined; variables, directives and named fragments are outside the generated fragment")
 CHECKS["C13"] = dict(engine="Repro", design_ref="§5 C13",
